@@ -19,7 +19,7 @@ def mdFillWrapper (W : Int) : LineWrapper := mdLineWrapper (fillBase W true)
 /-- base wrapper (the closure `line_wrapper`) of `line_wrap_by_sentence` -/
 def sentenceBase (cls : CharCls) (W : Int) (minLen : Nat) (md : Bool) : LineWrapper := fun text i0 s0 =>
   let t := text.map fun c => if c == '\n' then ' ' else c
-  if W ≤ 0 then i0 ++ strip t
+  if W ≤ 0 then i0 ++ joinSp (pySplit t)
   else
     let words := pySplit t
     let sents := splitSent (words.map fun w => (w, isSentenceEnd cls w)) []
